@@ -7,7 +7,7 @@ package database
 // ---------------------------------------------------------------------------
 // Loading (C15, C10). loadsOK(path) names "this file currently loads": a trusted link between two
 // loads of the same path within one operation (a stable file system).
-//@ pure func loadsOK(path string) bool
+//@ pure func loadsOK(path string) bool = fileReadable(path) && fileDecodes(path)
 
 // Index construction: the command list itself is never touched (functional contracts: C03).
 //@ func (*Database).BuildUniversalIndex
@@ -55,7 +55,7 @@ package database
 //@   ensures[C15.load-no-typed-nil] (istype(result1, *errors.AppError) ==> astype(result1, *errors.AppError) != nil) && !istype(result1, *errors.DatabaseError)
 //@   ensures[C15.load-missing] fileMissing(filename) ==> result1 != nil && errorsIs(result1, fs.ErrNotExist) && istype(result1, *errors.AppError) && astype(result1, *errors.AppError) != nil && astype(result1, *errors.AppError).Cause != nil && os.IsNotExist(astype(result1, *errors.AppError).Cause)
 //@   ensures[C15.load-perm] filePermDenied(filename) ==> result1 != nil && errorsIs(result1, fs.ErrPermission)
-//@   trusted-ensures[C15.load-stable] (result1 == nil) <==> loadsOK(filename)
+//@   ensures[C15.load-stable] (result1 == nil) <==> loadsOK(filename)
 //@   ensures[C01.load-inv+C03.load-inv] result1 == nil ==> dbInv(result0)
 //@   ensures[C03.load-index-current] result1 == nil ==> result0.uIndex != nil && result0.uIndex.N == len(result0.Commands) && idxOK(result0)
 
